@@ -637,6 +637,16 @@ StringDictionary *StringDictionaryHHTFC::load(std::istream &in) {
   return dict;
 }
 
+size_t StringDictionaryHHTFC::getHeaderCmpLength(size_t idbucket,
+                                                 size_t strLen) {
+  // The encoded strings are prefix-free, so a header always differs from any
+  // longer pattern within its own bytes. Thus, the result of the comparison
+  // does not change when it is limited to the available bytes
+  size_t available = bytesStrings - blStrings->getField(idbucket);
+
+  return (strLen < available) ? strLen : available;
+}
+
 uchar *StringDictionaryHHTFC::getHeader(size_t idbucket) {
   size_t ptrH = blStrings->getField(idbucket);
   uchar *header = textStrings + ptrH;
@@ -696,7 +706,7 @@ bool StringDictionaryHHTFC::locateBucket(uchar *str, uint strLen,
     center = (left + right) / 2;
     header = getHeader(center);
 
-    cmp = memcmp(header, str, strLen);
+    cmp = memcmp(header, str, getHeaderCmpLength(center, strLen));
 
     // The string is in any preceding bucket
     if (cmp > 0)
@@ -734,10 +744,10 @@ void StringDictionaryHHTFC::locateBoundaryBuckets(uchar *str, uint strLen,
   while (*left <= *right) {
     center = (*left + *right) / 2;
 
-    memcpy(header, getHeader(center), strLen);
+    memcpy(header, getHeader(center), getHeaderCmpLength(center, strLen));
     if (offset != 0)
       header[strLen - 1] = header[strLen - 1] & cmask;
-    cmp = memcmp(header, str, strLen);
+    cmp = memcmp(header, str, getHeaderCmpLength(center, strLen));
 
     if (cmp > 0)
       *right = center - 1;
@@ -768,10 +778,10 @@ void StringDictionaryHHTFC::locateBoundaryBuckets(uchar *str, uint strLen,
     while (ll <= lr) {
       lc = (ll + lr) / 2;
 
-      memcpy(header, getHeader(lc), strLen);
+      memcpy(header, getHeader(lc), getHeaderCmpLength(lc, strLen));
       if (offset != 0)
         header[strLen - 1] = header[strLen - 1] & cmask;
-      cmp = memcmp(header, str, strLen);
+      cmp = memcmp(header, str, getHeaderCmpLength(lc, strLen));
 
       if (cmp == 0)
         lr = lc - 1;
@@ -792,10 +802,10 @@ void StringDictionaryHHTFC::locateBoundaryBuckets(uchar *str, uint strLen,
     while (rl < (rr - 1)) {
       rc = (rl + rr) / 2;
 
-      memcpy(header, getHeader(rc), strLen);
+      memcpy(header, getHeader(rc), getHeaderCmpLength(rc, strLen));
       if (offset != 0)
         header[strLen - 1] = header[strLen - 1] & cmask;
-      cmp = memcmp(header, str, strLen);
+      cmp = memcmp(header, str, getHeaderCmpLength(rc, strLen));
 
       if (cmp == 0)
         rl = rc;
